@@ -447,6 +447,12 @@ func compiledInstructionsToJsonParsed(
 
 	parsedInstructionJSON, err := instrParams.ParseInstruction()
 	if err != nil || parsedInstructionJSON == nil || !strings.HasPrefix(strings.TrimSpace(string(parsedInstructionJSON)), "{") {
+		for _, v := range inst.Accounts {
+			if int(v) >= len(tx.Message.AccountKeys) {
+				// e.g. an account loaded through an address table that could not be resolved (no usable metadata)
+				return nil, fmt.Errorf("instruction account index %d out of range (%d account keys)", v, len(tx.Message.AccountKeys))
+			}
+		}
 		nonParseadInstructionJSON := map[string]any{
 			"accounts": func() []string {
 				out := make([]string, len(inst.Accounts))
